@@ -116,6 +116,7 @@ func statTol(kind ref.Stat, fibre []float64) float64 {
 }
 
 func runC05(c *fw.Ctx) {
+	deeperBounds(!c.Quick())
 	R := c.Pick(5, 6)
 	// ---- Along forms ----
 	for _, shape := range Shapes(1, R, 3) {
@@ -153,7 +154,7 @@ func runC05(c *fw.Ctx) {
 	}
 	for i := 0; i < c.Pick(1500, 15000); i++ { // one long dimension (127..4097): reduce along it and along the short ones
 		c.Case(func(k *fw.K) {
-			shape, long := LongShape(k.Rng, 3, 4097)
+			shape, long := LongShape(k.Rng, 3, 70000)
 			dim := long
 			if k.Rng.Intn(3) == 0 {
 				dim = k.Rng.Intn(len(shape))
